@@ -3,10 +3,19 @@
 Require Extraction.
 Require Import ExtrOcamlBasic.
 From Coq Require Import NArith.
-From Mdns Require Import Res Bytes ParamsHostres HostresBase HostresModel HostresSpec.
+From Mdns Require Import Res Bytes ParamsHostres HostresBase HostresModel HostresSpec BoundedModel BoundedSpec.
+(* unique names for the C20 model's entry points (both models define `run`, `step`, ...) *)
+Definition b20_run := BoundedModel.run.
+Definition b20_chk := BoundedSpec.chk_C20.
+Definition b20_chk_cache := BoundedSpec.chk_cache.
+Definition b20_chk_sub := BoundedSpec.chk_sub.
+Definition b20_chk_timers := BoundedSpec.chk_timers.
+Definition b20_predicted := BoundedSpec.predicted.
+Definition b20_times_ok := BoundedSpec.btimes_ok.
 Extraction Language OCaml.
 Extraction "model.ml"
   HostresModel.run HostresModel.observe HostresModel.step HostresModel.st0 HostresModel.due_times HostresModel.canon_out
   HostresSpec.chk_C17 HostresSpec.sp_run HostresSpec.late HostresSpec.wf_hist HostresSpec.wakes_ok HostresSpec.out_match
+  b20_run b20_chk b20_chk_cache b20_chk_sub b20_chk_timers b20_predicted b20_times_ok
   Res.is_ok
   N.eqb N.add N.mul N.land N.div N.modulo N.leb N.ltb.
